@@ -57,6 +57,32 @@ var (
 // evalClause evaluates a boolean clause for the function executing in frame fr.
 func (ex *Exec) evalClause(st *State, fr *Frame, c *Clause, extra map[string]*Val) (res *Term) {
 	env := ex.envFor(st, fr, extra)
+	// a parameter (or receiver) renamed in the code is still known by the name the contract header gives it
+	if fr != nil {
+		if fc := ex.eng.contractFor(fr.fn); fc != nil {
+			for i, n := range fc.Params {
+				if i >= len(fr.fn.Params) {
+					break
+				}
+				if _, bound := env.vars[n]; bound {
+					continue
+				}
+				if _, inFrame := fr.names[n]; inFrame {
+					continue
+				}
+				p := fr.fn.Params[i]
+				if nv, ok := fr.names[p.Name()]; ok {
+					if !nv.isAddr {
+						env.vars[n] = nv.v
+					} else if nv.v.K == VAddr {
+						env.vars[n] = ex.load(st, nv.v.A)
+					}
+				} else if v, ok := fr.vals[p]; ok {
+					env.vars[n] = v
+				}
+			}
+		}
+	}
 	defer func() {
 		if r := recover(); r != nil {
 			if se, ok := r.(specErr); ok {
